@@ -199,7 +199,7 @@ def run_case(case, rec):
                 s3 = make(case, th)
                 if flash(s3, T=s.T, P=s.P):
                     V3 = vfrac(s3, vidx)
-                    rec.check(abs(V3 - V0) <= 5e-3, 'independent-reflash', spec_name, f'vle({spec}) returned T={s.T!r}, P={s.P!r}; an independent TP flash there gives vapour fraction {V3!r}, not {V0} ({ids}, z={case["x"]})', residual=abs(V3 - V0))
+                    rec.check(abs(V3 - V0) <= 5e-3 + vb, 'independent-reflash', spec_name, f'vle({spec}) returned T={s.T!r}, P={s.P!r}; an independent TP flash there gives vapour fraction {V3!r}, not {V0} ({ids}, z={case["x"]})', residual=abs(V3 - V0))
                 two_phase = True
         # ---- H and S specifications
         if kind != 'single':
